@@ -614,11 +614,14 @@ def discarded_query_calls(repo, func, queries):
     return out
 
 
-def inloop_guards(cfg, nid, head_id):
+def inloop_guards(cfg, nid, head_id, compound=False):
     """Branch outcomes (canonical spelling) that dominate node `nid` and were decided inside the loop whose header is `head_id`:
     what *selects* the node among the iterations.  Used by the exact-selection rules ("for every item with P, and only those")."""
     from sa.cfg import canon_set
-    return set(canon_set(cfg.guards_at(nid))) - set(canon_set(cfg.guards_at(head_id)))
+    out = set(canon_set(cfg.guards_at(nid))) - set(canon_set(cfg.guards_at(head_id)))
+    if compound:
+        out |= set(canon_set(cfg.compound_guards_at(nid))) - set(canon_set(cfg.compound_guards_at(head_id)))
+    return out
 
 
 def positive(gset):
